@@ -1021,6 +1021,11 @@ type MacroNode struct {
 	defaults map[string]Node
 	body     []Node
 	line     int
+	// siblings holds every macro defined in the same template, by name. It is filled once
+	// when the template is parsed (linkMacros) and only read afterwards. A macro body sees
+	// these macros whoever calls it, so that a macro that uses a helper macro of its own
+	// template also works when it is reached through import or from ... import
+	siblings map[string]Node
 }
 
 func (n *MacroNode) Type() NodeType {
@@ -1172,6 +1177,11 @@ func (n *MacroNode) CallMacro(w io.Writer, ctx *RenderContext, args ...interface
 	// Ensure context is released even in error paths
 	defer macroCtx.Release()
 
+	// The macros of the defining template are visible in the body whatever the caller sees
+	for name, sibling := range n.siblings {
+		macroCtx.macros[name] = sibling
+	}
+
 	// Set the parameters
 	for i, param := range n.params {
 		if i < len(args) {
@@ -1209,6 +1219,42 @@ func (n *MacroNode) CallMacro(w io.Writer, ctx *RenderContext, args ...interface
 	}
 
 	return nil
+}
+
+// linkMacros gives every macro defined in nodes (at any depth) the table of all of them.
+// Called once per template, by the parser, before the tree is shared.
+func linkMacros(nodes []Node) {
+	table := make(map[string]Node)
+	var all []*MacroNode
+	var walk func(nodes []Node)
+	walk = func(nodes []Node) {
+		for _, node := range nodes {
+			switch v := node.(type) {
+			case *MacroNode:
+				table[v.name] = v
+				all = append(all, v)
+				walk(v.body)
+			case *BlockNode:
+				walk(v.body)
+			case *IfNode:
+				for _, body := range v.bodies {
+					walk(body)
+				}
+				walk(v.elseBranch)
+			case *ForNode:
+				walk(v.body)
+				walk(v.elseBranch)
+			case *ApplyNode:
+				walk(v.body)
+			case *SpacelessNode:
+				walk(v.body)
+			}
+		}
+	}
+	walk(nodes)
+	for _, m := range all {
+		m.siblings = table
+	}
 }
 
 // ImportNode represents a macro import
